@@ -50,6 +50,9 @@ def cases(tier, seed, flavour):
         if tA != 'N':
             yield {'part': 'base-shapes', 'f': 'gemv', 'tA': tA}
             yield {'part': 'base-shapes', 'f': 'syrk', 'tA': tA}
+        # non-unit and negative increments: x and y sized exactly to their documented footprints
+        for inc in ((1, -1), (-1, 1), (-2, -2), (2, -1)):
+            yield {'part': 'base-shapes', 'f': 'gemv', 'tA': tA, 'inc': list(inc)}
     # sparse indexing sizes its result in a counting pass and fills it in a second pass: every slice / index pair
     for (m, n) in ((2, 1), (1, 3), (3, 2), (2, 3)):
         for pat in ('full', 'lower', 'checker', 'lastcol'):
@@ -58,6 +61,15 @@ def cases(tier, seed, flavour):
 
 
 # ------------------------------------------------------------------------------------------------ helpers
+def _lf():
+    """per-call time limits are meant for an idle machine; stretched by load average / cores when other jobs compete."""
+    try:
+        from mc import engine
+        return engine._load_factor()
+    except Exception:
+        return 1.0
+
+
 def _forked(fn, timeout=10):
     """run fn() in a forked child.  returns ('exc', name) | ('ok', None) | ('signal', n) | ('timeout', None)."""
     import resource
@@ -73,7 +85,7 @@ def _forked(fn, timeout=10):
                 resource.setrlimit(resource.RLIMIT_CORE, (0, 0))
             except Exception:
                 pass
-            signal.alarm(timeout)
+            signal.alarm(int(timeout * _lf()))
             dn = os.open(os.devnull, os.O_WRONLY)
             os.dup2(dn, 2)
             try:
@@ -126,7 +138,7 @@ def _forked_batch(fns, timeout=10, groups=None):
                 os.dup2(dn, 2)
                 for i in range(start, len(fns)):
                     os.write(w, b'S%d\n' % i)
-                    signal.alarm(timeout)
+                    signal.alarm(int(timeout * _lf()))
                     try:
                         fns[i]()
                         os.write(w, b'O%d\n' % i)
@@ -497,11 +509,15 @@ def run_base_shapes(case):
                 elif f == 'gemv':
                     if spB or spC:
                         continue
-                    A, x, y = mk(*(sh(m_, k_, tA) + (spA,))), mk(k_, 1, False), mk(cr, 1, False)
+                    ix_, iy_ = case.get('inc', (1, 1))
+                    A, x, y = mk(*(sh(m_, k_, tA) + (spA,))), mk(1 + (k_ - 1) * abs(ix_), 1, False), mk(cr, 1, False)
                     if cc != 1:
                         continue
-                    fits = cr >= m_
-                    fn = (lambda A=A, x=x, y=y: base.gemv(A, x, y)) if tA == 'N' else (lambda A=A, x=x, y=y: base.gemv(A, x, y, trans=tA))
+                    fits = cr >= 1 + (m_ - 1) * abs(iy_)
+                    if 'inc' in case:
+                        fn = lambda A=A, x=x, y=y: base.gemv(A, x, y, trans=tA, incx=ix_, incy=iy_)
+                    else:
+                        fn = (lambda A=A, x=x, y=y: base.gemv(A, x, y)) if tA == 'N' else (lambda A=A, x=x, y=y: base.gemv(A, x, y, trans=tA))
                 elif f == 'syrk':
                     if spB:
                         continue
@@ -623,4 +639,5 @@ SKIP_DETERMINISM_GATE = True
 
 
 def crash_key(case):
-    return case['part'] + ':' + str(case.get('f', case.get('k', ''))) + case.get('tA', '') + case.get('tB', '')
+    return case['part'] + ':' + str(case.get('f', case.get('k', ''))) + case.get('tA', '') + case.get('tB', '') + \
+        (':inc=%s' % case['inc'] if case.get('inc') else '')
